@@ -19,6 +19,7 @@ import (
 	"errors"
 	"fmt"
 	"io"
+	"sync"
 
 	"github.com/apache/arrow-go/v18/arrow"
 	"github.com/apache/arrow-go/v18/arrow/array"
@@ -47,6 +48,11 @@ type VerifToken struct {
 	Cost   int // bytes the reader asks its allocator for when materialising the record
 }
 
+// verifMu guards the token table and the counters when the compiled model is driven by several goroutines
+// (native replay); under the engine a mutex operation made by model code is neither a scheduling point nor a
+// happens-before edge.
+var verifMu sync.Mutex
+
 var (
 	verifTokens  []VerifToken
 	verifStreams int
@@ -67,6 +73,8 @@ func VerifTokenOf(b []byte) (VerifToken, bool) {
 	for i := 4; i < 12; i++ {
 		h = h<<8 | int(b[i])
 	}
+	verifMu.Lock()
+	defer verifMu.Unlock()
 	if h < 0 || h >= len(verifTokens) {
 		return VerifToken{}, false
 	}
@@ -86,6 +94,8 @@ func NewWriter(w io.Writer, opts ...Option) *Writer {
 	for _, o := range opts {
 		o(cfg)
 	}
+	verifMu.Lock()
+	defer verifMu.Unlock()
 	verifStreams++
 	VerifOpenWriters++
 	return &Writer{w: w, schema: cfg.schema, stream: verifStreams}
@@ -98,8 +108,11 @@ func (w *Writer) Write(rec arrow.Record) error {
 	if w.schema == nil || !rec.Schema().Equal(w.schema) {
 		return errors.New("arrow/ipc: tried to write record batch with different schema")
 	}
+	clone := array.VerifCloneRecord(rec, false)
+	verifMu.Lock()
 	h := len(verifTokens)
-	verifTokens = append(verifTokens, VerifToken{Stream: w.stream, Seq: w.seq, Rec: array.VerifCloneRecord(rec, false), Schema: w.schema, Cost: VerifCost})
+	verifTokens = append(verifTokens, VerifToken{Stream: w.stream, Seq: w.seq, Rec: clone, Schema: w.schema, Cost: VerifCost})
+	verifMu.Unlock()
 	w.seq++
 	buf := make([]byte, 12)
 	copy(buf, magic[:])
@@ -114,7 +127,9 @@ func (w *Writer) Write(rec arrow.Record) error {
 func (w *Writer) Close() error {
 	if !w.closed {
 		w.closed = true
+		verifMu.Lock()
 		VerifOpenWriters--
+		verifMu.Unlock()
 	}
 	return nil
 }
